@@ -198,12 +198,12 @@ func (Transport) GetProto() pb.IPProto {
 // provided by the client during registration. This Transport was written after RandomizeDstPort was
 // added, so it should not be usable by clients who don't support destination port randomization.
 func (t Transport) ParseParams(libVersion uint, data *anypb.Any) (any, error) {
-	if data == nil {
-		return nil, nil
-	}
-
 	if libVersion < randomizeDstPortMinVersion {
 		return nil, fmt.Errorf("client couldn't support this transport")
+	}
+
+	if data == nil {
+		return nil, nil
 	}
 
 	var m = &pb.PrefixTransportParams{}
